@@ -188,6 +188,58 @@ theorem ninv_step (k : Kind) (mode : Nat) (f : Nat → Nat) (hk : k ≠ .sequenc
           · have := hi s.busy; simpa [e] using this
           · exact h0
 
+theorem qview_all_some (res : Bool) (items : List Nat) : ∀ o ∈ qview res items, ∃ y b, o = some (y, b) := by
+  intro o ho
+  cases items with
+  | nil => simp [qview] at ho
+  | cons x xs =>
+    simp only [qview, List.mem_cons, List.mem_map] at ho
+    rcases ho with rfl | ⟨y, _, rfl⟩
+    · exact ⟨x, res, rfl⟩
+    · exact ⟨y, false, rfl⟩
+
+/-- while a reservation is held, no operation other than release / consume touches the reserved front item -/
+theorem reserved_front_stable_step (k : Kind) (mode : Nat) (f : Nat → Nat) (hk : k ≠ .sequencer)
+    (hm : k = .buffer → 1 ≤ mode) (s : BufSt) (h : NInv k s) (x : Nat) (rest : List Slot)
+    (hr : s.reserved = true) (hv : s.buf.view = some (x, true) :: rest) (op : BufOp)
+    (h1 : op ≠ .release) (h2 : op ≠ .consume) :
+    (bufStep k mode f s op).1.reserved = true ∧ ∃ rest', (bufStep k mode f s op).1.buf.view = some (x, true) :: rest' := by
+  obtain ⟨wf, noub, items, hvi, hne, hperm, hq⟩ := h
+  unfold bufStep
+  rw [if_neg (by rw [noub]; exact Bool.false_ne_true)]
+  cases op with
+  | put v =>
+    have hp := pushBack_spec s.buf wf v
+    cases k <;> first | exact absurd rfl hk | (dsimp only; exact ⟨hr, _, by rw [hp.2.2.2, hv]; rfl⟩)
+  | get =>
+    cases k with
+    | sequencer => exact absurd rfl hk
+    | queue => dsimp only; rw [if_pos hr]; exact ⟨hr, rest, hv⟩
+    | buffer =>
+      dsimp only
+      split
+      · exact ⟨hr, rest, hv⟩
+      · rename_i hc
+        have hm1 := hm rfl
+        have hlen : 2 ≤ s.buf.tail - s.buf.head := by
+          simp only [hr, Bool.true_and, Bool.or_eq_true, ge_iff_le, decide_eq_true_eq, Bool.and_eq_true, beq_iff_eq, not_or, not_and] at hc
+          omega
+        have hl : s.buf.view.length = rest.length + 1 := by rw [hv]; simp
+        rw [view_length] at hl
+        rcases List.eq_nil_or_concat rest with e | ⟨rinit, last, e⟩
+        · subst e; simp at hl; omega
+        · rw [List.concat_eq_append] at e
+          subst e
+          have hmem : last ∈ qview s.reserved items := by rw [← hvi, hv]; simp
+          obtain ⟨y, b, rfl⟩ := qview_all_some _ _ _ hmem
+          obtain ⟨b', hp, _, hv', _, _⟩ := popBack_some s.buf wf y b (some (x, true) :: rinit) (by rw [hv]; simp)
+          simp only [hp]
+          exact ⟨hr, rinit, hv'⟩
+  | reserve => dsimp only; rw [if_pos hr]; exact ⟨hr, rest, hv⟩
+  | release => exact absurd rfl h1
+  | consume => exact absurd rfl h2
+  | fwd a => dsimp only; rw [if_pos hr]; exact ⟨hr, rest, hv⟩
+
 theorem ninv_run (k : Kind) (mode : Nat) (f : Nat → Nat) (hk : k ≠ .sequencer) (hm : k = .buffer → 1 ≤ mode)
     (ops : List BufOp) : NInv k ((bufMach k mode f).run ops).1 :=
   Mach.inv_run (bufMach k mode f) (NInv k) (ninv_init k) (fun s o h => ninv_step k mode f hk hm s o h) ops
